@@ -133,9 +133,14 @@ def boolean_locals(fn) -> Set[str]:
     return bools
 
 
+_FLIP = {ast.Eq: ast.NotEq, ast.NotEq: ast.Eq, ast.Is: ast.IsNot, ast.IsNot: ast.Is, ast.In: ast.NotIn, ast.NotIn: ast.In}
+
+
 def neg(e: ast.AST) -> ast.AST:
     if isinstance(e, ast.UnaryOp) and isinstance(e.op, ast.Not):
         return e.operand
+    if isinstance(e, ast.Compare) and len(e.ops) == 1 and type(e.ops[0]) in _FLIP:
+        return ast.copy_location(ast.Compare(left=e.left, ops=[_FLIP[type(e.ops[0])]()], comparators=e.comparators), e)
     if isinstance(e, ast.Constant) and isinstance(e.value, bool):
         return ast.copy_location(ast.Constant(value=not e.value), e)
     return ast.copy_location(ast.UnaryOp(op=ast.Not(), operand=e), e)
@@ -179,6 +184,11 @@ def strip_bool_in_test(e: ast.AST) -> ast.AST:
         return strip_bool_in_test(e.args[0])
     if isinstance(e, ast.UnaryOp) and isinstance(e.op, ast.Not):
         e.operand = strip_bool_in_test(e.operand)
+        inner = e.operand
+        if isinstance(inner, ast.UnaryOp) and isinstance(inner.op, ast.Not):
+            return strip_bool_in_test(inner.operand)        # not not x: the same truth value
+        if isinstance(inner, ast.Compare) and len(inner.ops) == 1 and type(inner.ops[0]) in _FLIP:
+            return neg(inner)
     elif isinstance(e, ast.BoolOp):
         e.values = [strip_bool_in_test(v) for v in e.values]
     return e
@@ -394,6 +404,40 @@ def flatten_boolop(e: ast.AST) -> ast.AST:
 
 
 # ------------------------------------------------------------------------------------------------ S8 / T1
+def flag_search(st: ast.For, known: Dict[str, bool], esc) -> Optional[ast.stmt]:
+    """`flag = any(...)` / `flag = all(...)` for a loop that only flips one flag (of known value) at the first element passing a test."""
+    if st.orelse or not isinstance(st.target, ast.Name) or st.target.id in esc:
+        return None
+    tests, flag = [], None
+    for b in st.body:
+        if isinstance(b, ast.If) and not b.orelse and len(b.body) == 2 and plain_assign(b.body[0]) and isinstance(b.body[0].value, ast.Constant) \
+                and isinstance(b.body[0].value.value, bool) and isinstance(b.body[1], ast.Break) \
+                and not any(isinstance(x, (ast.NamedExpr, ast.Await, ast.Yield, ast.YieldFrom)) for x in ast.walk(b.test)):
+            f = plain_assign(b.body[0])
+            if flag not in (None, f) or f not in known or known[f] is b.body[0].value.value or f in esc:
+                return None
+            if any(isinstance(x, ast.Name) and x.id == f for x in ast.walk(b.test)):
+                return None
+            flag = f
+            tests.append(b.test)
+        else:
+            return None
+    if flag is None:
+        return None
+    start = known[flag]
+    if start:       # flag stays True unless some element passes a test: all(not C ...)
+        conds = [neg(t) for t in tests]
+        cond = conds[0] if len(conds) == 1 else ast.BoolOp(op=ast.And(), values=conds)
+        fname = "all"
+    else:
+        cond = tests[0] if len(tests) == 1 else ast.BoolOp(op=ast.Or(), values=tests)
+        fname = "any"
+    gen = ast.GeneratorExp(elt=cond, generators=[ast.comprehension(target=st.target, iter=st.iter, ifs=[], is_async=0)])
+    new = ast.copy_location(ast.Assign(targets=[ast.Name(id=flag, ctx=ast.Store())], value=ast.Call(func=ast.Name(id=fname, ctx=ast.Load()), args=[gen], keywords=[])), st)
+    ast.fix_missing_locations(new)
+    return new
+
+
 def fold_known_flags(fn: ast.AST) -> int:
     """S8: `f = True ; ... ; if f: A else: B` with nothing in between assigning f  ->  `f = True ; ... ; A`."""
     esc = escaping_names(fn) | params_of(fn)
@@ -460,6 +504,14 @@ def fold_known_flags(fn: ast.AST) -> int:
                     continue
                 st.body = block(st.body, known)
                 st.orelse = block(st.orelse, known) if st.orelse else []
+            elif isinstance(st, ast.For) and flag_search(st, known, esc) is not None:
+                # L6 with the flag's value known at the loop:  for x in xs: if C: flag = <other>; break   ->   flag = any(C ...) / all(not C ...)
+                st = flag_search(st, known, esc)
+                count[0] += 1
+                for nm in stored(st):
+                    known.pop(nm, None)
+                out.append(st)
+                continue
             elif isinstance(st, (ast.For, ast.While, ast.AsyncFor)):
                 inner = {k: v for k, v in known.items() if k not in stored(st)}
                 st.body = block(st.body, inner)
@@ -675,6 +727,15 @@ def _simplify_defensive(fn: ast.AST) -> int:
         for i, st in enumerate(fn.body):
             fn.body[i] = tr.visit(st)
         count[0] += tr.count
+        for node in list(ast.walk(fn)):
+            if isinstance(node, ast.BoolOp) and isinstance(node.op, ast.And) and len(node.values) >= 2:
+                before = len(node.values)
+                r = chain_comparisons(node)
+                if r is not node:
+                    replace_child(parents(fn).get(id(node)), node, r)
+                    count[0] += 1
+                elif len(node.values) != before:
+                    count[0] += 1
         par = params_of(fn) | escaping_names(fn)
         all_names = [n for n in ast.walk(fn) if isinstance(n, ast.Name)]
 
@@ -863,6 +924,9 @@ def _simplify_defensive(fn: ast.AST) -> int:
                             continue
                 out.append(st)
                 i += 1
+                if isinstance(st, (ast.Return, ast.Raise, ast.Continue, ast.Break)) and i < len(stmts):
+                    count[0] += 1       # S13: nothing after it in this block can run
+                    break
             return out or [ast.Pass()]
         fn.body = block(fn.body)
         total += count[0]
@@ -1039,7 +1103,7 @@ def find_init(out: List[ast.stmt], name: str):
     return None
 
 
-def length_source(fn, n_name: str) -> Optional[str]:
+def length_source(fn, n_name: str, loop=None) -> Optional[str]:
     """xs when the local n_name is assigned exactly once, as len(xs), and xs is bound at most once in the function."""
     loads, stores = names_in(fn, n_name)
     defs = [st for st in own_nodes(fn) if plain_assign(st) == n_name]
@@ -1050,6 +1114,11 @@ def length_source(fn, n_name: str) -> Optional[str]:
         xs = v.args[0].id
         if len(names_in(fn, xs)[1]) <= 1:
             return xs
+        if loop is not None:
+            from .normalize import _same_definitions
+            uses = [x for x in ast.walk(loop) if isinstance(x, ast.Name) and x.id == xs and isinstance(x.ctx, ast.Load)]
+            if uses and _same_definitions(fn, defs[0], uses, {xs}):
+                return xs
     return None
 
 
@@ -1147,7 +1216,7 @@ def recover_loops(fn: ast.AST) -> int:
                 if isinstance(N, ast.Call) and isinstance(N.func, ast.Name) and N.func.id == "len" and len(N.args) == 1 and isinstance(N.args[0], ast.Name):
                     xs = N.args[0].id
                 elif isinstance(N, ast.Name):
-                    xs = length_source(fn, N.id)
+                    xs = length_source(fn, N.id, st)
                 if lo_ok and xs is not None and not stores_in(st.body, v) and unchanged_sequence(st.body, xs) and not read_elsewhere(fn, st, v, None):
                     up = parents(st)
                     idx_loads = [n for n in loads_in(st.body, v) if isinstance(up.get(id(n)), ast.Subscript) and up[id(n)].slice is n and isinstance(up[id(n)].value, ast.Name)
@@ -1432,6 +1501,15 @@ def defunctionalize_call(n: ast.Call, resolve) -> Optional[ast.AST]:
         if ks:
             tests = [ast.Compare(left=k, ops=[ast.In()], comparators=[copy.deepcopy(a[0].generators[0].iter)]) for k in ks]
             return tests[0] if len(tests) == 1 else ast.BoolOp(op=ast.Or(), values=tests)
+        it = a[0].generators[0].iter
+        e0 = a[0].elt
+        if isinstance(it, ast.Constant) and isinstance(it.value, str) and isinstance(e0, ast.Compare) and len(e0.ops) == 1 and isinstance(e0.ops[0], ast.Eq):
+            # any(d == c for d in "0123456789")  ->  c in "0123456789"   (c an element of a string being scanned: one character)
+            l, r = e0.left, e0.comparators[0]
+            if isinstance(r, ast.Name) and r.id == x:
+                l, r = r, l
+            if isinstance(l, ast.Name) and l.id == x and isinstance(r, ast.Name) and r.id != x and (r.id.endswith("__item") or len(r.id) <= 2):
+                return ast.Compare(left=r, ops=[ast.In()], comparators=[it])
     # F6
     if q == "builtins.next" and not n.keywords and 1 <= len(a) <= 2 and single_gen(a[0]):
         g = a[0].generators[0]
@@ -1713,6 +1791,26 @@ def search_loops_to_any(fn: ast.AST) -> int:
                     ast.fix_missing_locations(out[-1])
                     count[0] += 1
                     continue
+            # L9  for x in S: if C: continue ; raise R   ->   if not all(C for x in S): raise R      (R does not mention x)
+            if isinstance(st, ast.For) and not st.orelse and isinstance(st.target, ast.Name) and st.target.id not in esc:
+                x = st.target.id
+                b = st.body
+                cond = kind = R = None
+                if len(b) == 2 and isinstance(b[0], ast.If) and not b[0].orelse and len(b[0].body) == 1 and isinstance(b[0].body[0], ast.Continue) and isinstance(b[1], ast.Raise):
+                    cond, kind, R = b[0].test, "all", b[1]
+                elif len(b) == 1 and isinstance(b[0], ast.If) and not b[0].orelse and len(b[0].body) == 1 and isinstance(b[0].body[0], ast.Raise):
+                    cond, kind, R = b[0].test, "any", b[0].body[0]
+                loads_after = [n for n in ast.walk(fn) if isinstance(n, ast.Name) and n.id == x and isinstance(n.ctx, ast.Load) and not any(n is y for y in ast.walk(st))]
+                if cond is not None and not loads_after and not any(isinstance(n, ast.Name) and n.id == x for n in ast.walk(R)) \
+                        and not any(isinstance(n, (ast.NamedExpr, ast.Await, ast.Yield, ast.YieldFrom)) for n in ast.walk(cond)):
+                    gen = ast.GeneratorExp(elt=cond, generators=[ast.comprehension(target=st.target, iter=st.iter, ifs=[], is_async=0)])
+                    call = ast.Call(func=ast.Name(id=kind, ctx=ast.Load()), args=[gen], keywords=[])
+                    test = call if kind == "any" else ast.UnaryOp(op=ast.Not(), operand=call)
+                    new = ast.copy_location(ast.If(test=test, body=[R], orelse=[]), st)
+                    ast.fix_missing_locations(new)
+                    out.append(new)
+                    count[0] += 1
+                    continue
             out.append(st)
         return out
     fn.body = block(fn.body)
@@ -1898,3 +1996,179 @@ def dispatch_on_constant(fn: ast.AST) -> int:
     if count[0]:
         ast.fix_missing_locations(fn)
     return count[0]
+
+
+# ------------------------------------------------------------------------------------------------ L7 / L8 / S14 / S15
+def accumulate_to_join(fn: ast.AST) -> int:
+    """L7: `acc = "" ; for x in xs: acc = acc + E` (or `acc += E`)  ->  `acc = "".join(E for x in xs)`."""
+    if not isinstance(fn, (ast.FunctionDef, ast.AsyncFunctionDef)):
+        return 0
+    esc = escaping_names(fn) | params_of(fn)
+    count = [0]
+
+    def block(stmts):
+        out = []
+        for st in stmts:
+            if isinstance(st, FUNC):
+                out.append(st)
+                continue
+            for fld in ("body", "orelse", "finalbody"):
+                if getattr(st, fld, None):
+                    setattr(st, fld, block(getattr(st, fld)))
+            for h in getattr(st, "handlers", []) or []:
+                h.body = block(h.body)
+            if isinstance(st, ast.For) and not st.orelse and len(st.body) == 1 and isinstance(st.target, ast.Name) and out and plain_assign(out[-1]) \
+                    and isinstance(out[-1].value, ast.Constant) and out[-1].value.value == "":
+                acc = plain_assign(out[-1])
+                b = st.body[0]
+                piece = None
+                if isinstance(b, ast.AugAssign) and isinstance(b.op, ast.Add) and isinstance(b.target, ast.Name) and b.target.id == acc:
+                    piece = b.value
+                elif plain_assign(b) == acc and isinstance(b.value, ast.BinOp) and isinstance(b.value.op, ast.Add) and isinstance(b.value.left, ast.Name) and b.value.left.id == acc:
+                    piece = b.value.right
+                if piece is not None and acc not in esc and st.target.id not in esc and not any(isinstance(x, ast.Name) and x.id == acc for x in ast.walk(piece)) \
+                        and not any(isinstance(x, ast.Name) and x.id == acc for x in ast.walk(st.iter)):
+                    gen = ast.GeneratorExp(elt=piece, generators=[ast.comprehension(target=st.target, iter=st.iter, ifs=[], is_async=0)])
+                    out[-1] = ast.copy_location(ast.Assign(targets=[ast.Name(id=acc, ctx=ast.Store())],
+                                                           value=ast.Call(func=ast.Attribute(value=ast.Constant(value=""), attr="join", ctx=ast.Load()), args=[gen], keywords=[])), st)
+                    ast.fix_missing_locations(out[-1])
+                    count[0] += 1
+                    continue
+            out.append(st)
+        return out
+    fn.body = block(fn.body)
+    return count[0]
+
+
+def propagate_string_constants(fn: ast.AST) -> int:
+    """S14: `digits = "0123456789"` -- the only binding of a local, a string constant -- is written out where it is read."""
+    if not isinstance(fn, (ast.FunctionDef, ast.AsyncFunctionDef)):
+        return 0
+    esc = escaping_names(fn) | params_of(fn)
+    consts = {}
+    for st in own_nodes(fn):
+        t = plain_assign(st)
+        if t and t not in esc and isinstance(st.value, ast.Constant) and isinstance(st.value.value, str) and len(names_in(fn, t)[1]) == 1:
+            consts[t] = st
+    if not consts:
+        return 0
+    up = parents(fn)
+    n = 0
+    for name, st in consts.items():
+        loads = names_in(fn, name)[0]
+        # only where the string is searched or iterated (a test `x in digits`, a loop / comprehension over it): elsewhere the name documents more than the literal
+        uses = []
+        for ld in loads:
+            p = up.get(id(ld))
+            if isinstance(p, ast.Compare) and ld in p.comparators and any(isinstance(o, (ast.In, ast.NotIn)) for o in p.ops):
+                uses.append(ld)
+            elif isinstance(p, ast.comprehension) and p.iter is ld:
+                uses.append(ld)
+            elif isinstance(p, ast.For) and p.iter is ld:
+                uses.append(ld)
+        if len(uses) != len(loads) or not loads:
+            continue
+        for ld in loads:
+            replace_child(up.get(id(ld)), ld, ast.copy_location(ast.Constant(value=st.value.value), ld))
+        n += 1
+    return n
+
+
+def unroll_index_loops(fn: ast.AST) -> int:
+    """L8: `for k in (0, 1, 2): xs[k] = f(k)` -- a loop over a literal tuple of small integers whose body is straight-line code that uses the
+    variable as an index or in arithmetic -- written out with the constant in place (and constant arithmetic folded)."""
+    from .normalize import Subst
+    if not isinstance(fn, (ast.FunctionDef, ast.AsyncFunctionDef)):
+        return 0
+    count = [0]
+
+    class Fold(ast.NodeTransformer):
+        def visit_BinOp(self, n):
+            self.generic_visit(n)
+            if isinstance(n.left, ast.Constant) and isinstance(n.right, ast.Constant) and type(n.left.value) is int and type(n.right.value) is int \
+                    and isinstance(n.op, (ast.Add, ast.Sub, ast.Mult)):
+                a, b = n.left.value, n.right.value
+                v = a + b if isinstance(n.op, ast.Add) else (a - b if isinstance(n.op, ast.Sub) else a * b)
+                if abs(v) < 10 ** 6:
+                    return ast.copy_location(ast.Constant(value=v), n)
+            return n
+
+    def block(stmts):
+        out = []
+        for st in stmts:
+            if isinstance(st, FUNC):
+                out.append(st)
+                continue
+            for fld in ("body", "orelse", "finalbody"):
+                if getattr(st, fld, None):
+                    setattr(st, fld, block(getattr(st, fld)))
+            for h in getattr(st, "handlers", []) or []:
+                h.body = block(h.body)
+            if isinstance(st, ast.For) and not st.orelse and isinstance(st.target, ast.Name) and isinstance(st.iter, ast.Tuple) and 1 <= len(st.iter.elts) <= 8 \
+                    and all(isinstance(e, ast.Constant) and type(e.value) is int for e in st.iter.elts) \
+                    and all(isinstance(b, (ast.Assign, ast.AugAssign, ast.Expr)) for b in st.body) and len(st.body) <= 4 and not stores_in(st.body, st.target.id):
+                v = st.target.id
+                up = parents(st)
+                idx_use = any(isinstance(up.get(id(n)), (ast.Subscript, ast.BinOp, ast.Slice)) for n in loads_in(st.body, v))
+                inside = {id(x) for x in ast.walk(st)}
+                live_after = any(isinstance(n, ast.Name) and n.id == v and isinstance(n.ctx, ast.Load) and id(n) not in inside for n in ast.walk(fn))
+                if idx_use and not live_after:
+                    for e in st.iter.elts:
+                        for b in st.body:
+                            nb = Fold().visit(Subst({v: ast.Constant(value=e.value)}).visit(copy.deepcopy(b)))
+                            ast.fix_missing_locations(nb)
+                            out.append(nb)
+                    count[0] += 1
+                    continue
+            out.append(st)
+        return out
+    fn.body = block(fn.body)
+    return count[0]
+
+
+def scalarise_local_lists(fn: ast.AST) -> int:
+    """S15: `parts = [0, 0, 0]; parts[0] = a; parts[1] = b; ...; r = parts[0]` -- a local list display only ever accessed by constant
+    index -- as one local per slot."""
+    if not isinstance(fn, (ast.FunctionDef, ast.AsyncFunctionDef)):
+        return 0
+    esc = escaping_names(fn) | params_of(fn)
+    up = parents(fn)
+    n = 0
+    for st in list(own_nodes(fn)):
+        t = plain_assign(st)
+        if not t or t in esc or not isinstance(st.value, ast.List) or not st.value.elts or len(st.value.elts) > 8 or any(isinstance(e, ast.Starred) for e in st.value.elts):
+            continue
+        loads, stores = names_in(fn, t)
+        if len(stores) != 1:
+            continue
+        size = len(st.value.elts)
+        ok = True
+        for ld in loads:
+            p = up.get(id(ld))
+            if not (isinstance(p, ast.Subscript) and p.value is ld and isinstance(p.slice, ast.Constant) and type(p.slice.value) is int and 0 <= p.slice.value < size
+                    and isinstance(p.ctx, (ast.Load, ast.Store))):
+                ok = False
+                break
+            gp = up.get(id(p))
+            if isinstance(p.ctx, ast.Store) and not (isinstance(gp, ast.Assign) and len(gp.targets) == 1):
+                ok = False
+                break
+        if not ok or not loads:
+            continue
+        for ld in loads:
+            p = up.get(id(ld))
+            replace_child(up.get(id(p)), p, ast.copy_location(ast.Name(id=f"{t}__{p.slice.value}", ctx=type(p.ctx)()), p))
+        new = [ast.copy_location(ast.Assign(targets=[ast.Name(id=f"{t}__{k}", ctx=ast.Store())], value=e), st) for k, e in enumerate(st.value.elts)]
+        parent = up.get(id(st))
+        for fld in ("body", "orelse", "finalbody"):
+            lst = getattr(parent, fld, None)
+            if isinstance(lst, list) and st in lst:
+                i = lst.index(st)
+                lst[i:i + 1] = new
+        for x in new:
+            ast.fix_missing_locations(x)
+        n += 1
+        up = parents(fn)
+    if n:
+        ast.fix_missing_locations(fn)
+    return n
